@@ -236,6 +236,20 @@ func (d *dealer) register(callee *wamp.Session, msg *wamp.Register) {
 	}
 
 	invoke, _ := wamp.AsString(msg.Options[wamp.OptInvoke])
+	switch invoke {
+	case "", wamp.InvokeSingle, wamp.InvokeFirst, wamp.InvokeLast, wamp.InvokeRoundRobin, wamp.InvokeRandom:
+	default:
+		// An unknown policy would let a second callee share the registration,
+		// and there is no rule for choosing among the callees when called.
+		d.trySend(callee, &wamp.Error{
+			Type:      msg.MessageType(),
+			Request:   msg.Request,
+			Error:     wamp.ErrInvalidArgument,
+			Arguments: wamp.List{fmt.Sprint("invalid invocation policy ", invoke)},
+			Details:   wamp.Dict{},
+		})
+		return
+	}
 	forwardTimeout, _ := msg.Options[wamp.OptForwardTimeout].(bool)
 	var metaPubs []*wamp.Publish
 	done := make(chan struct{})
